@@ -167,7 +167,8 @@ def parts_for(pid, tier, only):
                         assumptions=["relational: each listed word is run twice from the same symbolic pre-state, once with a plain argument v and once with WithTag{tags: any map, value: v}; outcomes must agree for all inputs",
                                      "tag nesting depth 1 (invariant, itself checked on Cell::with_tags: a wrapper never stores a wrapper)",
                                      "persistent maps are modelled as an opaque base plus written entries; lookups in the base are a function of (base, key value)",
-                                     "words covered: the arithmetic/logic words, stack words, length nth get push insert remove slice reverse equal? nil? assert, and the cursor words with a tagged size argument; printing words and the tag words are excluded as the property says"],
+                                     "words covered: the arithmetic/logic words, stack words, length nth get push insert remove equal? nil? assert, and the cursor words with a tagged size argument; Cell::cmp / == see through tags (sort, map keys); printing words and the tag words are excluded as the property says",
+                                     "NOT covered: slice, reverse, sort, concat, join, collect-style words that iterate a persistent vector through iterator adaptors or build text (mirsym has no model of those chains / of text building)"],
                         bounds="tag nesting 1; vectors indexed symbolically (no iteration), loop-free words"))
     elif pid == "C06":
         from e2.driver import e2_run
